@@ -26,7 +26,9 @@ What is proved, and how strongly.
   nearby positions (what a trajectory produces).
 * `sound_partial` — the "never a wrong position" clause, PARTIAL in the sense stated there.
 * `surface_stale_witness` — the defect found (and repaired) in the surface branch, on the model of the code as
-  it was; `gates_pinned` — the regenerated windows and gates are the documented ones.
+  it was; `source_gates_literal`, `gates_pinned` — the regenerated windows and gates are the documented ones.
+The `def`s of this file are statement vocabulary only (`entryOf`, `Truth`, `Encodes`, `SafeStep`, `Recovered`,
+the witness history and its metric).
 -/
 import Rs1090.Proofs.CprStateSound
 namespace Rs1090.Props.C06
@@ -370,6 +372,21 @@ theorem sound_step (dist : Pos → Pos → Rat) (upd : Option (Report → Bool))
   | other =>
     simp only [stepEntry_other Gates.source dist upd _ _ r hk] at h
     cases h
+
+/- FULL STATEMENT of the first clause of the property (kept visible; NOT proved — what is missing is only
+   the kinematic step, see `sound_partial`):
+
+     `sound` : ∀ (flights : finite set of great-circle flights, ground speed ≤ 700 kt, airborne or on the
+         surface with the receiver reference within 40 NM of every surface report, |lat| ≤ 87° there)
+       (h : any history obtained from the reports of `flights` — each the DO-260B encoding of the aircraft's
+            position at its time stamp — by interleaving, losses, duplicates, gaps and local swaps) :
+       ∀ k p, (decodePositions Gates.source haversine none reference h)[k]? = some (some p) →
+         greatCircleDistance p (position of h[k]'s aircraft at h[k]'s encoding time) ≤ 25 m
+
+   Proved instead: `sound_partial` below (the same conclusion, as exact recovery of the report's lattice
+   point, under the explicit safe-box hypotheses that the kinematics would supply), the degrees-to-lattice
+   bounds of C04/C05 (`recovered_close_*`), and — on the model of the code AS FOUND — the negation of `sound`
+   by a concrete history (`surface_stale_witness`); the repaired code passes that history. -/
 
 /-- **Never a wrong position — partial.**  Take any history `pre ++ r :: post` (any aircraft, interleaving,
     losses, duplicates, time stamps), with or without an `update_reference` callback, any distance function.
